@@ -23,6 +23,10 @@ inductive Elems where
   | cons (t : Tree) (delim : Nat) (rest : Elems)
 end
 
+instance : Inhabited Holders := ⟨.nil⟩
+instance : Inhabited Elems := ⟨.nil⟩
+instance : Inhabited Tree := ⟨.mk 0 0 .nil⟩
+
 def orElse (a b : Option Nat) : Option Nat := match a with | some x => some x | none => b
 
 mutual
